@@ -79,8 +79,8 @@ def judge(m, r, graph, trace, c, unique, ctx):
     if ctx["expand"] or any(e.obs_ne for e in lb) or any(a.edge_m.label != b.edge_m.label and a.edge_m.l2 != b.edge_m.l1 for a, b in zip(lb, lb[1:])):
         out.append(("NT", ""))
     for tag, msg in viols:
-        if tag != "score":
-            continue
+        if tag not in ("score", "geom"):
+            continue        # (edge_m.pi / edge_o.pi / dist_obs are observation points of C02 as well)
         fid = None
         if ctx["expand"] and "reported logprob" in msg:
             # D14 predicate: after a widening/extension round, the mismatching state's predecessor on the path is currently
